@@ -89,6 +89,15 @@ def run(rep: Report, t: str, stats: Dict[str, int]):
         exprs = rng.sample(exprs, n_expr)
     kinds = list(TEMPLATES)
     programs = []
+    # the hand-written constants outside the model's grammar, in every consumer position
+    for e in c15.EXTRA_EXPRS:
+        for k in kinds + ["value"]:
+            programs.append(((e, k), PRELUDE + (TEMPLATES[k] if k != "value" else "print({E})\n").replace("{E}", "(" + e + ")")))
+    # displays that are NOT constants although they look non-empty: truthiness depends on what is unpacked
+    for e in ("[*extra]", "(*extra,)", "{*extra}", "[*extra, *more]", "{**table}"):
+        for k in ("or", "and", "if", "ifexp", "not", "ifand"):
+            programs.append(((e, k), PRELUDE + "extra = []\nmore = ()\ntable = {}\n" + TEMPLATES[k].replace("{E}", e)))
+            programs.append(((e + " (non-empty)", k), PRELUDE + "extra = [0]\nmore = ()\ntable = {'k': 0}\n" + TEMPLATES[k].replace("{E}", e)))
     for e in exprs:
         ks = kinds if t != "quick" else rng.sample(kinds, 3)
         for k in ks:
